@@ -20,12 +20,13 @@ pub struct C07 {
     /// direct fault space: [TSRequest(challenge), CHALLENGE token, TSRequest(pubKeyAuth), sealed message]
     direct: Option<FaultSpace>,
     av_cases: Vec<(String, Vec<u8>)>,
+    ts: Vec<(String, Vec<u8>)>,
     blocks: Vec<(&'static str, u64)>,
 }
 
 impl C07 {
     pub fn new() -> C07 {
-        C07 { tier: Tier::Quick, e2e: None, direct: None, av_cases: vec![], blocks: vec![] }
+        C07 { tier: Tier::Quick, e2e: None, direct: None, av_cases: vec![], ts: vec![], blocks: vec![] }
     }
 }
 
@@ -143,6 +144,15 @@ fn av_alphabet() -> Vec<(String, Vec<u8>)> {
     }
     v.push(("empty target info".into(), challenge_with(rn::DEFAULT_FLAGS, &[], None, None, None, None)));
     v.push(("duplicate timestamp".into(), challenge_with(rn::DEFAULT_FLAGS, &rn::av_bytes(&[ts.clone(), ts.clone()], true), None, None, None, None)));
+    // the same id twice with values of different lengths (longer first, shorter first), next to each other and apart
+    for id in [rn::AV_NB_COMPUTER, rn::AV_NB_DOMAIN, rn::AV_DNS_COMPUTER, rn::AV_FLAGS, rn::AV_TIMESTAMP, rn::AV_TARGET_NAME, rn::AV_CHANNEL_BINDINGS, 0x00FF] {
+        for (a, b) in [(8usize, 4usize), (4, 8), (0, 8), (8, 0), (8, 9), (16, 300)] {
+            let first = (id, vec![0x41u8; a]);
+            let second = (id, vec![0x42u8; b]);
+            v.push((format!("av id {:#x} twice, {} then {} bytes, adjacent", id, a, b), challenge_with(rn::DEFAULT_FLAGS, &rn::av_bytes(&[ts.clone(), first.clone(), second.clone()], true), None, None, None, None)));
+            v.push((format!("av id {:#x} twice, {} then {} bytes, apart", id, a, b), challenge_with(rn::DEFAULT_FLAGS, &rn::av_bytes(&[first, ts.clone(), (rn::AV_DNS_DOMAIN, vec![0x43; 6]), second], true), None, None, None, None)));
+        }
+    }
     v
 }
 
@@ -209,6 +219,33 @@ fn ts_variants() -> Vec<(String, Vec<u8>)> {
         let msg = der::seq(&[der::explicit(0, &der::integer(2)), der::explicit(1, &der::seq(&[der::seq(&[der::explicit(0, &der::octets(&token))])]))]);
         v.push((format!("TSRequest of exactly {} bytes (token of {} bytes)", msg.len(), token.len()), msg));
     }
+    // piles of nested explicit context tags (DER-minimal lengths), far deeper than any TSRequest
+    for levels in [90usize, 300, 3000, 20000] {
+        let mut v2 = vec![0x04u8, 0x01, 0x41];
+        for _ in 0..levels {
+            v2 = der::tlv(der::ctx(0), &v2);
+        }
+        v.push((format!("{} nested [0] tags around a token", levels), der::seq(&[der::explicit(0, &der::integer(2)), der::explicit(1, &v2)])));
+        v.push((format!("{} nested [0] tags alone", levels), v2));
+    }
+    // much deeper piles (built back to front, linear): a walk that does not count every level exhausts the stack
+    for levels in [200_000usize, 600_000] {
+        let mut rev: Vec<u8> = vec![0x41, 0x01, 0x04];
+        for _ in 0..levels {
+            let n = rev.len();
+            if n < 0x80 {
+                rev.push(n as u8);
+            } else {
+                let be: Vec<u8> = n.to_be_bytes().iter().copied().skip_while(|b| *b == 0).collect();
+                rev.extend(be.iter().rev());
+                rev.push(0x80 | be.len() as u8);
+            }
+            rev.push(0xa0);
+        }
+        rev.reverse();
+        v.push((format!("{} nested [0] tags around a token", levels), der::seq(&[der::explicit(0, &der::integer(2)), der::explicit(1, &rev)])));
+        v.push((format!("{} nested [0] tags alone", levels), rev));
+    }
     // several negoTokens of which the first is (a prefix of) an NTLM message header
     let items = |toks: &[&[u8]]| der::seq(&[der::explicit(0, &der::integer(2)), der::explicit(1, &der::seq(&toks.iter().map(|t| der::seq(&[der::explicit(0, &der::octets(t))])).collect::<Vec<_>>()))]);
     let sig = b"NTLMSSP\0\x02\0\0\0\x01\x02";
@@ -267,6 +304,9 @@ fn run_direct(entry: usize, input: &[u8]) -> String {
         1 => {
             // non-ASCII credentials: a CHALLENGE may select the OEM character set
             let mut n = Ntlm::new("döm日".into(), "usér😀x".into(), "pä日w".into());
+            // the object has already completed a handshake (a short CHALLENGE without VERSION) when the hostile one arrives
+            let _ = n.create_negotiate_message();
+            let _ = n.read_challenge_message(&rn::challenge_message(&ServerCfg { flags: rn::DEFAULT_FLAGS & !rn::F_VERSION, target_name: "S".into(), av_pairs: vec![(rn::AV_TIMESTAMP, vec![1, 2, 3, 4, 5, 6, 7, 8])], ..ServerCfg::windows_like() }));
             let _ = n.create_negotiate_message();
             let r = n.read_challenge_message(input).map(|_| ()).map_err(|e| format!("{:?}", e));
             if r.is_ok() {
@@ -274,11 +314,26 @@ fn run_direct(entry: usize, input: &[u8]) -> String {
                 let _ = n.build_security_interface();
                 let _ = (n.get_domain_name(), n.get_user_name(), n.get_password());
             }
+            // the object goes on being used, whatever became of the hostile CHALLENGE: the same bytes again, a well-formed
+            // CHALLENGE for the NEGOTIATE that is still pending, then a whole new handshake
+            let _ = n.read_challenge_message(input);
+            let good = rn::challenge_message(&ServerCfg::windows_like());
+            let _ = n.read_challenge_message(&good);
+            let _ = n.create_negotiate_message();
+            let _ = n.read_challenge_message(&good);
+            let _ = n.build_security_interface();
             r
         }
         2 => cssp::read_ts_validate(input).map(|_| ()).map_err(|e| format!("{:?}", e)),
         _ => {
             let mut s = NTLMv2SecurityInterface::new(Rc4::new(b"0123456789abcdef"), Rc4::new(b"fedcba9876543210"), vec![1; 16], vec![2; 16]);
+            // a context that has already unsealed twelve genuine messages of its peer
+            let mut peer = NTLMv2SecurityInterface::new(Rc4::new(b"fedcba9876543210"), Rc4::new(b"0123456789abcdef"), vec![2; 16], vec![1; 16]);
+            for k in 0..12u8 {
+                if let Ok(tok) = peer.gss_wrapex(&[k; 5]) {
+                    let _ = s.gss_unwrapex(&tok);
+                }
+            }
             s.gss_unwrapex(input).map(|_| ()).map_err(|e| format!("{:?}", e))
         }
     };
@@ -316,18 +371,19 @@ impl Prop for C07 {
             Tier::Thorough,
         ));
         self.av_cases = av_alphabet();
+        self.ts = ts_variants();
         let n = self.strings();
         let red = pk.len() as u64 * 3;
         let mut blocks = vec![
             ("e2e-challenge", self.e2e.as_ref().unwrap().total()),
             ("e2e-pubkey", red),
             ("e2e-av", self.av_cases.len() as u64),
-            ("e2e-ts", ts_variants().len() as u64 * 2),
+            ("e2e-ts", self.ts.len() as u64 * 2),
             ("e2e-sealed", sealed_replies().len() as u64 * 3),
             ("e2e-cert", CERTS.len() as u64 * 2),
             ("direct-faults", self.direct.as_ref().unwrap().total()),
             ("direct-av", self.av_cases.len() as u64),
-            ("direct-ts", ts_variants().len() as u64 * 2),
+            ("direct-ts", self.ts.len() as u64 * 2),
             ("direct-strings", DIRECT_ENTRIES.len() as u64 * n),
         ];
         if tier == Tier::Thorough {
@@ -346,14 +402,14 @@ impl Prop for C07 {
             "e2e-challenge" => json!(self.e2e.as_ref().unwrap().get(i).1),
             "direct-faults" => json!(self.direct.as_ref().unwrap().get(i).1),
             "e2e-av" | "direct-av" => json!(self.av_cases[i as usize].0),
-            "e2e-ts" | "direct-ts" => json!(ts_variants()[(i / 2) as usize].0),
+            "e2e-ts" | "direct-ts" => json!(self.ts[(i / 2) as usize].0),
             "e2e-sealed" => json!(format!("{:?} certificate #{}", sealed_replies()[(i / 3) as usize], i % 3)),
             "e2e-cert" => json!(format!("{:?} check={}", CERTS[(i / 2) as usize], i % 2)),
             _ => json!(null),
         }})
     }
     fn rule(&self) -> String {
-        "cases: [e2e-*] the real cssp_connect inside the real Connector::connect over real TLS against the reference CredSSP server whose CHALLENGE TSRequest carries every single deviation (byte x value set, 16/32-bit boundary fields at every offset in both byte orders, truncations, extensions), whose pubKeyAuth reply carries {00, FF, truncate} at every offset, an AV-pair alphabet (every id 0..0x0C, 0xFF, 0x100, 0x7FFF, 0x8000, 0xFFFF x declared lengths {0,1,2,8,0xFFFF} x present bytes x with/without timestamp x with/without EOL; target-info/target-name descriptors at their boundaries; every flag bit toggled), TSRequest shapes (empty/missing/double negoTokens, 3/63/64/65/256/1000 negoTokens items, well-formed target information of 4000..65519 bytes, TargetInfoMaxLen != TargetInfoLen, TargetName bytes that are not valid UTF-8 / UTF-16 with the Unicode flag set and cleared, correctly sealed final replies numbered 0..2^32-1 or carrying 0..200000-byte values, errorCode, indefinite and 2^31/2^32/2^63 lengths, 200-deep nesting, TSRequests of exactly 1499 / 1500 / 1501 / 3000 bytes, several negoTokens of which one is a 0..14-byte prefix of an NTLM message header, a primitive element declaring a length near 2^64 alone inside exactly fitting [0]..[4] wrappers at three depths) in both rounds, and 19 server certificates (RSA-2048/4096, EC P-256, Ed25519, critical unknown extension, 20-byte / 40-byte / negative serial, empty subject, and DER-edited ones: X.509 v1, version 4, GeneralizedTime, invalid UTCTime, non-zero unused bits, BMPString / T61String subject, duplicate / empty extensions) with checking on/off; [direct-*] the same inputs, every single deviation with all 256 byte values, and every byte string of length <=2 (<=3) plus 3..5 (..6) byte strings over 8 boundary bytes, fed directly to read_ts_server_challenge, Ntlm::read_challenge_message, read_ts_validate and gss_unwrapex; thorough adds all pairs of {00, FF, truncate} faults on the direct entries. Oracle: returns; no panic/abort/hang; allocation rule.".into()
+        "cases: [e2e-*] the real cssp_connect inside the real Connector::connect over real TLS against the reference CredSSP server whose CHALLENGE TSRequest carries every single deviation (byte x value set, 16/32-bit boundary fields at every offset in both byte orders, truncations, extensions), whose pubKeyAuth reply carries {00, FF, truncate} at every offset, an AV-pair alphabet (the same id twice with values of different lengths; every id 0..0x0C, 0xFF, 0x100, 0x7FFF, 0x8000, 0xFFFF x declared lengths {0,1,2,8,0xFFFF} x present bytes x with/without timestamp x with/without EOL; target-info/target-name descriptors at their boundaries; every flag bit toggled), TSRequest shapes (empty/missing/double negoTokens, 3/63/64/65/256/1000 negoTokens items, well-formed target information of 4000..65519 bytes, TargetInfoMaxLen != TargetInfoLen, TargetName bytes that are not valid UTF-8 / UTF-16 with the Unicode flag set and cleared, correctly sealed final replies numbered 0..2^32-1 or carrying 0..200000-byte values, errorCode, indefinite and 2^31/2^32/2^63 lengths, 200-deep nesting, up to 600 000 nested explicit tags, TSRequests of exactly 1499 / 1500 / 1501 / 3000 bytes, several negoTokens of which one is a 0..14-byte prefix of an NTLM message header, a primitive element declaring a length near 2^64 alone inside exactly fitting [0]..[4] wrappers at three depths) in both rounds, and 19 server certificates (RSA-2048/4096, EC P-256, Ed25519, critical unknown extension, 20-byte / 40-byte / negative serial, empty subject, and DER-edited ones: X.509 v1, version 4, GeneralizedTime, invalid UTCTime, non-zero unused bits, BMPString / T61String subject, duplicate / empty extensions) with checking on/off; [direct-*] the same inputs, every single deviation with all 256 byte values, and every byte string of length <=2 (<=3) plus 3..5 (..6) byte strings over 8 boundary bytes, fed directly to read_ts_server_challenge, Ntlm::read_challenge_message (on an object that completed a handshake before and that afterwards reads the same bytes again, a well-formed CHALLENGE for the pending NEGOTIATE and a whole new handshake), read_ts_validate and gss_unwrapex; thorough adds all pairs of {00, FF, truncate} faults on the direct entries. Oracle: returns; no panic/abort/hang; allocation rule.".into()
     }
     fn assumptions(&self) -> Vec<String> {
         vec!["memory rule: single request > 1 MiB or peak > 16 MiB + 1024 x bytes received".into()]
@@ -400,8 +456,12 @@ impl Prop for C07 {
                 e2e(vec![Deviation { msg: "cssp_challenge".into(), kind: DevKind::Replace(ts_request(2, Some(&tok), None, None)) }], Cert::A, false)
             }
             "e2e-ts" => {
-                let v = ts_variants()[(i / 2) as usize].1.clone();
+                let v = crate::alloc::exempt(|| self.ts[(i / 2) as usize].1.clone());
                 let msg = if i % 2 == 0 { "cssp_challenge" } else { "cssp_pubkey" };
+                if v.len() > (1 << 20) {
+                    // the client reads at most 1500 bytes of a CredSSP message: the giant shapes are for the direct entries
+                    return Outcome::pass("e2e-ts:giant-shape-left-to-the-direct-entries", false);
+                }
                 e2e(vec![Deviation { msg: msg.into(), kind: DevKind::Replace(v) }], Cert::A, false)
             }
             "e2e-sealed" => {
@@ -453,7 +513,7 @@ impl Prop for C07 {
                 Outcome::pass(format!("direct-av:{}", r), true)
             }
             "direct-ts" => {
-                let v = ts_variants()[(i / 2) as usize].1.clone();
+                let v = crate::alloc::exempt(|| self.ts[(i / 2) as usize].1.clone());
                 let r = run_direct(if i % 2 == 0 { 0 } else { 2 }, &v);
                 Outcome::pass(format!("direct-ts:{}", r), true)
             }
